@@ -38,7 +38,8 @@ func VH_C07_C18_WebBundleId() {
 	}
 	key := backing[:32] // len 32, cap 40: an append without copying would clobber the caller's bytes 32..34
 	want := refBase32Lower(append(append([]byte{}, key...), 0, 1, 2))
-	got := GetWebBundleId(key)
+	gotB, _ := vh.Isolated(func() ([]byte, error) { return []byte(GetWebBundleId(key)), nil }) // write-set recorder on
+	got := string(gotB)
 	vh.Assert(got == want, "Web Bundle ID is lower-case unpadded base32 of key || 00 01 02")
 	vh.Assert(len(got) == 56, "56 characters")
 	ok := true
